@@ -907,7 +907,7 @@ func (v *VResult) checkFailures(c *Case, tr *Trace, rt *RT, i int, out OpOut, fn
 		if !c.Cfg.Recover {
 			if !out.Panicked {
 				v.add(CRootCause, i, "f%d panicked, RecoverFromPanics is off, but Invoke returned normally (err: %v): the panic was swallowed", f0.fn, out.Err)
-			} else if out.PanicVal != interface{}(want) {
+			} else if !samePanic(out.PanicVal, want) {
 				v.add(CRootCause, i, "f%d panicked with %v but the panic that reached the caller is %v", f0.fn, want, out.PanicVal)
 			}
 			return
@@ -921,7 +921,7 @@ func (v *VResult) checkFailures(c *Case, tr *Trace, rt *RT, i int, out OpOut, fn
 			v.add(CRootCause, i, "f%d panicked with RecoverFromPanics on but RootCause(err) is not a PanicError: %v", f0.fn, out.Err)
 			return
 		}
-		if pv != interface{}(want) {
+		if !samePanic(pv, want) {
 			v.add(CRootCause, i, "PanicError carries %v, want the value f%d panicked with (%v)", pv, f0.fn, want)
 		}
 		if isDig {
@@ -995,7 +995,7 @@ func (v *VResult) checkCallbacks(c *Case, tr *Trace, rt *RT, i int, fn *MFn) {
 			case FaultPanic:
 				if c.Cfg.Recover {
 					pv, isPE, _ := panicErrorOf(cb.CBErr)
-					if !isPE || pv != interface{}(rt.panicOf(ev.Fn, ev.Exec)) {
+					if !isPE || !samePanic(pv, rt.panicOf(ev.Fn, ev.Exec)) {
 						v.add(CCallback, i, "%v panicked (recovered) but its callback received Error=%v", g, cb.CBErr)
 					}
 				}
@@ -1014,7 +1014,12 @@ func (v *VResult) checkCallbacks(c *Case, tr *Trace, rt *RT, i int, fn *MFn) {
 					v.add(CCallback, i, "%v: callback Name=%q, want %q", g, cb.CBName, want)
 				}
 			}
-			if int64(cb.CBRuntime) != int64(g.F.Dur) {
+			if c.Cfg.SysClock {
+				v.Labels["callback-on-system-clock"] = true
+				if cb.CBRuntime < 0 || cb.CBRuntime > tr.Ops[i].Wall {
+					v.add(CCallback, i, "%v: callback Runtime=%v on the system clock; the whole API call took %v", g, cb.CBRuntime, tr.Ops[i].Wall)
+				}
+			} else if int64(cb.CBRuntime) != int64(g.F.Dur) {
 				v.add(CCallback, i, "%v: callback Runtime=%v but the function itself advanced the clock by %v", g, cb.CBRuntime, time.Duration(g.F.Dur))
 			}
 		case EvCB:
